@@ -89,8 +89,8 @@ def build(program: dict) -> dict:
                 nd["start"].insert(1, ("svc", "crasher", [("gate", "c"), ("crash",)]))
     if program.get("svc"):
         last = paths(spec)[-1][1]
-        if program["svc"] == "ta-raise":
-            last["prepare"].insert(1, ("svc-ta-raise", "bgta"))
+        if program["svc"] in ("ta-raise", "ta-partial"):
+            last["prepare"].insert(1, ("svc-" + program["svc"], "bgta"))
         else:
             body = {"owntd": [("owntd",), ("forever",)], "coc": [("owntd",), ("crash-on-cancel",)]}.get(program["svc"], [("forever",)])
             last["prepare"].insert(1, ("svc", "bg", body))
@@ -175,9 +175,10 @@ class C15(E1Check):
                     if svc:
                         # a background service whose (asynchronous) teardown action fails after it has stopped the task: the documented
                         # outcome of the ending is unaffected
-                        progs.append({"tree": tree, "cli": cli, "svc": "ta-raise", "end": {"kind": "signal", "sig": "SIGTERM"}})
-                        if cli:
-                            progs.append({"tree": tree, "cli": True, "svc": "ta-raise", "end": {"kind": "run-return", "value": 0}})
+                        for ta in ("ta-raise", "ta-partial"):
+                            progs.append({"tree": tree, "cli": cli, "svc": ta, "end": {"kind": "signal", "sig": "SIGTERM"}})
+                            if cli:
+                                progs.append({"tree": tree, "cli": True, "svc": ta, "end": {"kind": "run-return", "value": 0}})
                     if svc:
                         # the background service has an asynchronous teardown callback on its own context
                         progs.append({"tree": tree, "cli": cli, "svc": "owntd", "end": {"kind": "signal", "sig": "SIGTERM"}})
